@@ -12,6 +12,7 @@ import (
 	"io"
 	"math/rand/v2"
 	"os"
+	"runtime"
 	"sort"
 	"sync"
 	"testing"
@@ -668,6 +669,96 @@ func randomHistory(t *testing.T, c *vk.C, rng *rand.Rand, i int) map[string]int 
 	return st
 }
 
+// hammer: several consumers call Torrent.Request(want) in tight loops from their own goroutines
+// while the piece is being completed; real parallelism finds the windows between the consumer's
+// own completeness test and the event loop's.  At the cut after the piece was verified every
+// channel any consumer obtained in the round must be closed.
+func hammer(t *testing.T, c *vk.C, rng *rand.Rand) map[string]int {
+	st := map[string]int{}
+	swarm.Run(t, c, "C10", func(sw *swarm.Swarm) {
+		g := &fixture.Geo{Name: "h", PieceLen: 16 << 10, Length: 4*(16<<10) - 3, Seed: rng.Uint64()}
+		m := newModel(sw, g)
+		sw.Cut()
+		const P = 1
+		rounds := 40
+		for round := 0; round < rounds; round++ {
+			nc := 2 + rng.IntN(7)
+			type got struct {
+				ch   <-chan struct{}
+				prio int8
+			}
+			res := make([][]got, nc)
+			var wg sync.WaitGroup
+			start := make(chan struct{})
+			for k := 0; k < nc; k++ {
+				wg.Add(1)
+				go func(k int) {
+					defer wg.Done()
+					<-start
+					for it := 0; it < 30; it++ {
+						prio := int8(k % 3)
+						ok, ch, err := m.tr.T.Request(P, prio, true, true)
+						if err != nil {
+							return
+						}
+						if ok {
+							res[k] = append(res[k], got{ch, prio})
+						}
+						if it%4 == 3 {
+							runtime.Gosched()
+						}
+					}
+				}(k)
+			}
+			close(start)
+			if rng.IntN(2) == 0 {
+				runtime.Gosched()
+			}
+			m.fill(P, false)
+			wg.Wait()
+			sw.Cut()
+			if !m.complete(P) {
+				c.Inconclusive("piece did not complete in a hammer round")
+				return
+			}
+			nch := 0
+			for k := range res {
+				for _, x := range res[k] {
+					if x.ch == nil {
+						continue
+					}
+					nch++
+					select {
+					case <-x.ch:
+					default:
+						sw.Viol("C10", "requests", "lost-wakeup open-channel verified hammer", fmt.Sprintf("a wait channel obtained by consumer %d is still open at the quiescent cut after piece %d was verified (round %d, %d consumers)", k, P, round, nc))
+						return
+					}
+				}
+			}
+			st["hammer_rounds"]++
+			st["hammer_channels"] += nch
+			// withdraw everything that was registered, then the stored multiset must be empty
+			for k := range res {
+				for _, x := range res[k] {
+					m.tr.T.Request(P, x.prio, false, false)
+				}
+			}
+			sw.Cut()
+			if !swarm.RaceEnabled {
+				rv := m.tr.Requested()
+				if len(rv.Prio[P]) != 0 {
+					sw.Viol("C10", "requests", "priority-leaked hammer", fmt.Sprintf("after every registration of the round was withdrawn piece %d still holds priorities %v", P, rv.Prio[P]))
+					return
+				}
+			}
+			m.evict(P)
+			sw.Cut()
+		}
+	})
+	return st
+}
+
 func TestCheck(t *testing.T) {
 	r := vk.New("C10")
 	defer r.Done()
@@ -693,6 +784,22 @@ func TestCheck(t *testing.T) {
 			c.Count(k, int64(v))
 		}
 		c.FP(swarm.ClassOf(st, "request", "withdraw", "complete", "fail", "evict", "reader-open", "reader-read", "reader-close", "reader-cancel", "waiters"), st["waiters"] > 0 && st["withdraw"] > 0 && st["complete"] > 0)
+		c.End()
+	}
+	// hammer family
+	nh := r.Env.N(64, 3000)
+	hb := base + n
+	for k := 0; k < nh; k++ {
+		i := hb + k
+		if !r.Mine(i) {
+			continue
+		}
+		c := r.Begin(i, map[string]any{"family": "hammer"})
+		st := hammer(t, c, r.Env.Rng(i))
+		for kk, v := range st {
+			c.Count(kk, int64(v))
+		}
+		c.FP(vk.Hash64("hammer", i%8), st["hammer_channels"] > 0)
 		c.End()
 	}
 	_ = hash.Hash(nil)
